@@ -34,6 +34,13 @@ let handle (toks : string list) : (string * string * string) option =
             | _ -> "ABORT")
         | _ -> "ABORT") in
     Some (s, s, "opq:callback")
+  | ["opqcbf"; d; f; l] ->
+    (* floating values cross unchanged (bit patterns); the long as in opqcb *)
+    let l = z_of_string l in
+    let s = (match to_app abi_lp32 ILong l with
+        | Some (Ok x) -> "SAW=" ^ d ^ "," ^ f ^ "," ^ string_of_z x ^ " R=" ^ d
+        | _ -> "ABORT") in
+    Some (s, s, "opq:callback-float")
   | ["scast"; kt; kf; w; v] ->
     let to_ = kind_of_string kt and from = kind_of_string kf and v = z_of_string v in
     let m = (match sandbox_static_cast abi_lp32 (w = "V") to_ from v with
